@@ -12,7 +12,7 @@ cp -r $W/old/typhon $W/var/
 for f in $(grep '^+++ b/' $V/patch.diff | sed 's#^+++ b/##'); do
   if [ -f $W/old/$f ]; then git merge-file -q $W/var/$f $W/old/$f $W/new/$f || { echo "CONFLICT in $f"; exit 1; }; fi
 done
-(cd $W && diff -ruN new/typhon var/typhon | sed 's#^--- new/#--- a/#; s#^+++ var/#+++ b/#; s#^diff -ruN new/\(.*\) var/.*#diff --git a/\1 b/\1#') > $V/patch.diff.new || true
+(cd $W && for f in $(grep '^+++ b/' $V/patch.diff | sed 's#^+++ b/##' | sed 's/\t.*//'); do diff -uN new/$f var/$f; done | sed 's#^--- new/#--- a/#; s#^+++ var/#+++ b/#; s#^diff -uN new/\(.*\) var/.*#diff --git a/\1 b/\1#') > $V/patch.diff.new || true
 mv $V/patch.diff.new $V/patch.diff
 rm -rf $W
 echo ported $V
